@@ -354,6 +354,9 @@ func c05(ctx *Ctx) (*Outcome, error) {
 	for i := 0; i < 8; i++ {
 		cases = append(cases, extFieldCase(i))
 	}
+	for i := 0; i < 5; i++ {
+		cases = append(cases, draftNumericCase(i))
+	}
 	n := ctx.N(150, 4000)
 	for i := 0; i < n; i++ {
 		r := sg.NewRng(ctx.Seed, fmt.Sprintf("C05-case-%d", i))
